@@ -42,6 +42,16 @@ pub struct RecState {
     pub requesting: HashMap<ThreadId, u8>,
     /// counts every event (progress indicator)
     pub events: u64,
+    /// when Some: the sequence of waits / wakes / notifies with the thread and the locks it keeps (C12)
+    pub trace: Option<Vec<(ThreadId, SyncEv)>>,
+}
+
+#[derive(Clone, Debug, PartialEq, Eq)]
+pub enum SyncEv {
+    /// the thread starts waiting on the condition variable; the locks it still holds
+    Wait(Vec<u8>),
+    Wake,
+    Notify,
 }
 
 #[derive(Default)]
@@ -70,6 +80,18 @@ impl Recorder {
     }
     pub fn held_by(&self, t: ThreadId) -> Vec<u8> {
         self.0.lock().unwrap_or_else(|e| e.into_inner()).held.get(&t).cloned().unwrap_or_default()
+    }
+    /// starts (or restarts) recording the sequence of condition-variable events
+    pub fn start_trace(&self) {
+        self.0.lock().unwrap_or_else(|e| e.into_inner()).trace = Some(Vec::new());
+    }
+    pub fn trace(&self) -> Vec<(ThreadId, SyncEv)> {
+        self.0.lock().unwrap_or_else(|e| e.into_inner()).trace.clone().unwrap_or_default()
+    }
+    /// a thread other than `me` that holds `lock`
+    pub fn holder_of(&self, lock: u8, me: ThreadId) -> Option<ThreadId> {
+        let st = self.0.lock().unwrap_or_else(|e| e.into_inner());
+        st.held.iter().find(|(t, h)| **t != me && h.contains(&lock)).map(|(t, _)| *t)
     }
     pub fn anyone_waiting(&self) -> bool {
         !self.0.lock().unwrap_or_else(|e| e.into_inner()).waiting.is_empty()
@@ -112,15 +134,28 @@ impl Observer for Recorder {
     }
     fn cv_wait(&self, _lock: &'static str) -> bool {
         let mut st = self.0.lock().unwrap_or_else(|e| e.into_inner());
-        st.waiting.insert(std::thread::current().id());
+        let tid = std::thread::current().id();
+        st.waiting.insert(tid);
         st.waits += 1;
         st.events += 1;
+        let held = st.held.get(&tid).cloned().unwrap_or_default();
+        if let Some(t) = st.trace.as_mut() {
+            t.push((tid, SyncEv::Wait(held)));
+        }
         false
     }
     fn cv_wake(&self, _lock: &'static str) {
         let mut st = self.0.lock().unwrap_or_else(|e| e.into_inner());
         st.waiting.remove(&std::thread::current().id());
         st.events += 1;
+        if let Some(t) = st.trace.as_mut() {
+            t.push((std::thread::current().id(), SyncEv::Wake));
+        }
     }
-    fn cv_notify(&self) {}
+    fn cv_notify(&self) {
+        let mut st = self.0.lock().unwrap_or_else(|e| e.into_inner());
+        if let Some(t) = st.trace.as_mut() {
+            t.push((std::thread::current().id(), SyncEv::Notify));
+        }
+    }
 }
